@@ -229,7 +229,10 @@ for _s in [(0, 0, 0), (1, 1, 1), (2, 1, 1), (2, 2, 2)]:
   _mk_port_status(_s)
 
 
-def _mk_features(n_ports, shape):
+def _mk_features(n_ports, shape, same=False):
+  """same=True: the switch reports exactly the ports it reported before (a repeated features reply) while the view holds
+  deltas from port-status messages - the reply still REPLACES the view: the deltas are gone (seeded change C17_11 skipped the
+  reset when the reported set was unchanged, so deleted / renamed ports stayed deleted / renamed)"""
   n_chain, n_own, n_mask = shape
   def u(b):
     pc, chain, cps, ops = collection(b, n_chain, n_own, n_mask)
@@ -241,8 +244,11 @@ def _mk_features(n_ports, shape):
       cs["pox.openflow:OpenFlowNexus._connect"] = CallSpec("contract", envelope="registry update: property C09")
     else:
       nexus._connect = lambda con: None
-    reported = [mk_port(b, "rep%d" % i) for i in range(n_ports)]
-    distinct(b, reported)
+    if same:
+      reported = list(cps)
+    else:
+      reported = [mk_port(b, "rep%d" % i) for i in range(n_ports)]
+      distinct(b, reported)
     msg = b.new(of.ofp_features_reply)
     b.set(msg, "ports", b.list(reported))
     b.set(msg, "datapath_id", b.int("dpid", 0, (1 << 64) - 1))
@@ -253,7 +259,7 @@ def _mk_features(n_ports, shape):
       "the_view_is_exactly_the_reported_ports": lambda res: same_objects(res[0], reported) and res[2] == n_ports,
       "the_original_ports_are_exactly_the_reported_ports": lambda res: same_objects(res[1], reported) and res[3],
     })
-  u.__name__ = "features_reply_ports%d_chain%d_own%d_masks%d" % ((n_ports,) + shape)
+  u.__name__ = "features_reply_ports%d_chain%d_own%d_masks%d%s" % ((n_ports,) + shape + ("_same_ports_again" if same else "",))
   u.bound = BOUND + "; 0..2 reported ports with pairwise distinct numbers"
   unit(P, target="pox.openflow.of_01:DefaultOpenFlowHandlers.handle_FEATURES_REPLY", timeout_s=600)(u)
 
@@ -261,6 +267,8 @@ def _mk_features(n_ports, shape):
 for _n in (0, 1, 2):
   for _s in [(0, 0, 0), (2, 2, 2)]:
     _mk_features(_n, _s)
+_mk_features(2, (2, 2, 2), same=True)
+_mk_features(2, (2, 1, 1), same=True)
 
 
 # notifications that arrive DURING the handshake (after the features reply, before connection-up) belong to the port view too:
